@@ -223,9 +223,14 @@ def check_delete(case):
 def check_append(case):
     spec, how = case['pkg'], case['how']
     st = package(spec)
+    if case.get('shifted'):
+        # names an all-default pipeline is left with after its first resources were deleted: res_<k+1>, res_<k+2>, ...
+        # (every default name the appended resource would try first is taken)
+        for i, r in enumerate(st.desc['resources']):
+            r['name'] = 'res_%d' % (len(spec) + 1 + i)
     names = st.names()
     new_rows = [{'n': 1, 'm': 'x'}, {'n': 2, 'm': None}]
-    label = 'appending via %s after package %r' % (how, spec)
+    label = 'appending via %s after package %r%s' % (how, spec, ' named %r' % names if case.get('shifted') else '')
     if how == 'iterable':
         step = [copy.deepcopy(r) for r in new_rows]
         newnames = None
@@ -245,7 +250,9 @@ def check_append(case):
     got = out.names()
     k = len(names)
     v = []
-    if got[:k] != names:
+    if len(set(got)) != len(got):
+        v.append(('appended-name-collides/append-%s' % how, '%s: resources are now named %r' % (label, got)))
+    elif got[:k] != names:
         v.append(('positions/append-%s' % how, '%s: existing resources became %r' % (label, got)))
     else:
         for i in range(k):
@@ -313,6 +320,8 @@ def cases(tier):
             if n <= 2 or tier == 'thorough':
                 for how in ('iterable', 'generator', 'load', 'sources'):
                     out.append({'proc': 'append', 'pkg': spec, 'how': how})
+                for how in ('iterable', 'generator'):
+                    out.append({'proc': 'append', 'pkg': spec, 'how': how, 'shifted': True})
     return out
 
 
